@@ -208,7 +208,7 @@ V2 = "vsqrtps vbroadcastss vpbroadcastd vrcpps vcvtdq2ps vcvtps2dq vcvttps2dq vp
 VMOV = "vmovss vmovsd vmovups vmovaps vmovd vmovq vmovdqu vmovdqa movss movsd movaps movups movd movq".split()
 RMW_SSE = "addss subss mulss divss sqrtss andps andpd orps orpd xorps xorpd pxor pand por pcmpeqd pcmpeqw pslld psrld psllq psrlq pshufd minss maxss".split()
 RMW_GPR = "add sub and or xor shl shr sar imul".split()
-CMP = "cmp test comiss ucomiss vcomiss vucomiss".split()
+CMP = "cmp test comiss ucomiss vcomiss vucomiss ptest vptest".split()
 JCC = "ja jae jb jbe je jne jz jnz jp jnp jg jge jl jle js jns jc jnc".split()
 SETCC = "sete setne setp setnp seta setb setae setbe setz setnz setg setl".split()
 V4 = "vroundss vpinsrd vblendvps vinsertps vcmpps vcmpss vroundsd".split()
